@@ -88,7 +88,8 @@ type Property struct {
 	QuickUnbounded            bool
 	ThoroughUnbounded         bool
 	Cache                     bool
-	QuickSecs, ThoroughSecs   int // per work item deadline
+	Delay                     bool // delay bounding for all scenarios
+	QuickSecs, ThoroughSecs   int  // per work item deadline
 	NotReached                []string
 }
 
@@ -320,6 +321,12 @@ func runItem(p *Property, it workItem, tier string, seed int64, secs, bound int,
 		res.WallS = time.Since(t0).Seconds()
 		return res
 	}
+	if p.Delay {
+		it.sc.Delay = true
+	}
+	if tier == "quick" && it.sc.QuickMaxBound > 0 && (it.sc.MaxBound == 0 || it.sc.QuickMaxBound < it.sc.MaxBound) {
+		it.sc.MaxBound = it.sc.QuickMaxBound
+	}
 	r := sched.Explore(it.sc, sched.Options{MaxBound: bound, Unbounded: unbounded, Cache: p.Cache, Deadline: deadline, MaxViol: 8})
 	res := &PartResult{Name: it.name, Engine: "S", Detail: r, Error: r.Error}
 	ex := true
@@ -334,9 +341,6 @@ func runItem(p *Property, it workItem, tier string, seed int64, secs, bound int,
 		if !bs.Completed {
 			ex = false
 		}
-	}
-	if len(r.Bounds) <= bound && (it.sc.MaxBound == 0 || len(r.Bounds) <= it.sc.MaxBound) {
-		ex = false
 	}
 	if r.Unbounded != nil {
 		res.Traces += int64(r.Unbounded.Executions)
